@@ -3,6 +3,7 @@ package rules
 import (
 	"fmt"
 	"go/token"
+	"go/types"
 	"strings"
 
 	"golang.org/x/tools/go/ssa"
@@ -220,4 +221,134 @@ func oneCall(r *R, key string, fn *ssa.Function, ks []Call, what string) (Call, 
 		r.Undecided(key, fn.Pos(), "%d calls to %s in %s where the rule was written for exactly one; re-anchor the rule", len(ks), what, fname(fn))
 	}
 	return Call{}, false
+}
+
+// optionNames returns, for a call with a trailing variadic option parameter,
+// the constructor functions whose results are passed (e.g. ForReference,
+// BeforeEntryID, IsUnskipped) together with the constructor calls; ok is false
+// when the option slice is not built at the call site.
+func optionNames(k Call) (names []string, ctors []Call, ok bool) {
+	cc := k.Instr.Common()
+	sig := cc.Signature()
+	if !sig.Variadic() {
+		return nil, nil, false
+	}
+	last := cc.Args[len(cc.Args)-1]
+	els := eng.VariadicElems(last)
+	if els == nil {
+		return nil, nil, false
+	}
+	for _, e := range els {
+		found := false
+		for _, root := range eng.Roots(e) {
+			if ck, _, isCall := eng.RootCall(root); isCall && ck.Callee != nil {
+				names = append(names, ck.Callee.Name())
+				ctors = append(ctors, ck)
+				found = true
+			}
+		}
+		if !found {
+			return names, ctors, false
+		}
+	}
+	return names, ctors, true
+}
+
+func sameStringSet(a []string, b ...string) bool {
+	m := map[string]int{}
+	for _, x := range a {
+		m[x]++
+	}
+	for _, x := range b {
+		m[x]--
+	}
+	for _, v := range m {
+		if v != 0 {
+			return false
+		}
+	}
+	return true
+}
+
+// optionCtor finds the constructor call with this name among ctors.
+func optionCtor(ctors []Call, name string) (Call, bool) {
+	for _, c := range ctors {
+		if c.Callee != nil && c.Callee.Name() == name {
+			return c, true
+		}
+	}
+	return Call{}, false
+}
+
+// allocStores returns, for a struct allocated in fn (composite literal), the
+// value stored into each named field.
+func allocStores(al *ssa.Alloc) map[string]ssa.Value {
+	out := map[string]ssa.Value{}
+	for _, ref := range *al.Referrers() {
+		fa, ok := ref.(*ssa.FieldAddr)
+		if !ok {
+			continue
+		}
+		name := fieldNameOf(fa)
+		for _, r2 := range *fa.Referrers() {
+			if st, ok := r2.(*ssa.Store); ok && st.Addr == ssa.Value(fa) {
+				out[name] = st.Val
+			}
+		}
+	}
+	return out
+}
+
+func fieldNameOf(fa *ssa.FieldAddr) string {
+	t := fa.X.Type().Underlying()
+	if p, ok := t.(*types.Pointer); ok {
+		if s, ok := p.Elem().Underlying().(*types.Struct); ok {
+			return s.Field(fa.Field).Name()
+		}
+	}
+	return "?"
+}
+
+// allocsOf lists the allocations in fn of the named struct type.
+func allocsOf(fn *ssa.Function, typeName string) []*ssa.Alloc {
+	var out []*ssa.Alloc
+	for _, b := range fn.Blocks {
+		for _, in := range b.Instrs {
+			if al, ok := in.(*ssa.Alloc); ok {
+				if p, ok := al.Type().(*types.Pointer); ok {
+					if n, ok := p.Elem().(*types.Named); ok && n.Obj().Name() == typeName {
+						out = append(out, al)
+					}
+				}
+			}
+		}
+	}
+	return out
+}
+
+// rangeDoneEdges returns, for every `range` over a value matching p (map or
+// string ranges use Next; slices use index loops and are matched by their
+// `i < len(x)` test), the CFG edges taken when the loop is exhausted.
+func rangeDoneEdges(fn *ssa.Function, p Pat) []eng.Edge {
+	var out []eng.Edge
+	for _, b := range fn.Blocks {
+		for _, in := range b.Instrs {
+			nx, ok := in.(*ssa.Next)
+			if !ok {
+				continue
+			}
+			rg, ok := nx.Iter.(*ssa.Range)
+			if !ok || !p(rg.X) {
+				continue
+			}
+			for _, ref := range *nx.Referrers() {
+				if ex, ok := ref.(*ssa.Extract); ok && ex.Index == 0 {
+					out = append(out, eng.BoolEdges(fn, eng.PSame(ex), false)...)
+				}
+			}
+		}
+	}
+	// slice ranges: `phi < len(x)` false edge
+	out = append(out, eng.RelEdges(fn, token.GEQ, eng.PAny(), eng.PLen(p))...)
+	return out
 }
